@@ -33,6 +33,7 @@ var atomsFull = []string{
 	"cc",       // closed channel (one element still queued)
 	"cn",       // nil channel
 	"mo",       // module
+	"ty",       // a type value: make(type nty, 1)
 	"f0", "f1", // script functions
 	"f5", "fv",
 	"g1", "g3", "gv", "gp", "ge", // Go functions: fixed 1, fixed 3, variadic, panics, (value,error)
@@ -98,6 +99,7 @@ func templates() []template {
 	add("memberA", 'E', "$E . A", true, true)
 	add("membera", 'E', "$E . a", true, true)
 	add("memberv", 'E', "$E . v", false, true)
+	add("membert", 'E', "$E . t", false, true) // t: the (unexported) field of a type value
 	add("memberf", 'E', "$E . f ( $E )", false, true)
 	add("call0", 'E', "$E ( )", true, true)
 	add("call1", 'E', "$E ( $E )", true, true)
@@ -166,6 +168,9 @@ func templates() []template {
 	add("var22", 'S', "var x , y = $E , $E", false, false)
 	add("var12", 'S', "var x = $E , $E", false, false)
 	add("letderef", 'S', "* $E = $E", true, false)
+	add("letderef2", 'S', "* $E = * $E", false, false)
+	add("letdereftype", 'S', "* $E = * make ( type nu , $E )", false, false)
+	add("letmembert", 'S', "$E . t = $E", false, false)
 	add("letmemberA", 'S', "$E . A = $E", true, false)
 	add("letmembera", 'S', "$E . a = $E", true, false)
 	add("letindex", 'S', "$E [ $E ] = $E", true, false)
